@@ -514,6 +514,9 @@ func (g *ProgGen) Program() *ast.Program {
 		if g.Chance(45, "serverscenario") {
 			g.serverScenario(0)
 		}
+		if g.Chance(40, "counterscenario") {
+			g.counterScenario(0)
+		}
 	}
 	if g.dead {
 		return nil
